@@ -522,6 +522,24 @@ func runC11(c *Ctx, r *Report) {
 		_ = n5
 	}
 
+	// R6: nothing but the function cache asks object.Hashable (true for small representations only)
+	r.Rule("C11.R6", "representation independence of admissibility: object.Hashable (true for arrays up to 8 elements and maps up to 4 pairs, false beyond) is called only by the memoization cache and by itself; no map or array operation may accept or reject a value with it")
+	{
+		hash := c.Fn("object", "Hashable")
+		allowed := map[string]bool{"eval.(Cache).Get": true, "eval.(Cache).Set": true, "object.Hashable": true}
+		n6 := 0
+		for _, fn := range c.ModuleSSAFuncs() {
+			for _, call := range callsIn(fn, hash) {
+				n6++
+				r.Check(allowed[ssaFuncName(fn)], "C11.R6", ssaFuncName(fn), "call to object.Hashable", c.Pos(call.Pos()),
+					"object.Hashable answers for the memoization cache and depends on the internal representation (false for arrays over 8 elements and maps over 4 pairs): used here it makes an operation accept a small container and reject the same container once it has grown")
+			}
+		}
+		if n6 < 3 {
+			r.Undecided("C11.R6: only %d calls to object.Hashable found", n6)
+		}
+	}
+
 	// shared C07.R9: the small representation never indexes past its capacity (thresholds and length field)
 	r.Rule("C07.R9", "(shared) fixed-capacity containers: length fields within capacity, index and slice bounds proven")
 	{
